@@ -299,9 +299,12 @@ type msCursor struct {
 	last    int    // index of the entry returned by the previous next(), -1 before the first
 	mutSeen int    // len(coll.muts) when last advanced (or created)
 	visited uint64 // classes returned so far
+	era0    int    // number of clear() calls of the collection before the cursor was created
 }
 
-func newMsCursor(c *msColl) *msCursor { return &msCursor{coll: c, last: -1, mutSeen: len(c.muts)} }
+func newMsCursor(c *msColl) *msCursor {
+	return &msCursor{coll: c, last: -1, mutSeen: len(c.muts), era0: c.clears}
+}
 
 func (it *msCursor) next() (int, bool) {
 	if it.done {
